@@ -14,10 +14,13 @@ RULE = ("eight case kinds, all running the real code of /repo on a fake host wit
         "(crawl) crawler.DefaultCrawler.Run on graphs of 1-40 peers with dial failures, request failures, empty answers, address-less and duplicate seeds, parallelism 1-8; "
         "(refresh) 2-3 crawl rounds through the real runCrawler + DefaultCrawler with bootstrap peers and changing graphs, table and a lookup after each swap; "
         "(swap) a reader held inside the real GetClosestPeers while the real runCrawler swaps the table, further readers queued behind / between the writer's lock acquisitions; "
-        "(bulk/single) ProvideMany, PutMany, Provide, PutValue on empty and non-empty tables; (chunk) divideByChunkSize. "
+        "(bulk/single) ProvideMany, PutMany, Provide, PutValue on empty and non-empty tables; (bulk-swap, one case in 40) ProvideMany / PutMany of 1-6 keys started on the "
+        "table of a first crawl (1-12 peers) while the second crawl (65%: nobody, else a random subset) is swapped in by the real runCrawler at the n-th log statement of the "
+        "operation's goroutine (n = 1 in half of the cases, else 2-4), judged by the no-panic / no-hang clause alone; (chunk) divideByChunkSize. "
         "A case is non-trivial when it has at least one crawled peer / queried peer; distinct = distinct (kind, K, limit, size class, branch tags "
         "skipped / short / paged / mixed / failures / duplicate seeds / stage reached) signatures")
 TRUSTED = [
+    "go-log's SetPrimaryCore / zapcore: the harness' logging core runs on the goroutine that logs (used as a yield point of bulk operations)",
     "sha256 (kb.ConvertPeerID / kb.ConvertKey): identifiers are passed to the model as their leading 64 bits; the harness keeps them pairwise different within a case, "
     "which makes the XOR order on the prefixes equal to the order on the full identifiers",
     "go-libp2p-xor trie: kademlia.ClosestN(key, trie, n) is specified as 'the n nearest keys, nearest first' and trie.Size as the number of keys (compared on every case, not derived)",
